@@ -18,6 +18,7 @@ PROPS['C04'] = {
     'packages': ['./tree', './hashmap'],
     'functions': [
         '(*tree.Quartet).Compare', '(*tree.Quartet).HashCode', '(*tree.Quartet).HashEquals',
+        '(*tree.Edge).HashCode',
     ],
     'lemma_files': [],
     'trusted_base': TB_COMMON,
@@ -36,4 +37,15 @@ PROPS['C19'] = {
     'assumptions': A_COMMON + ['RunE bodies may rewrite option variables after parsing (e.g. rootCpus clamped to NumCPU): not part of the property'],
     'not_decided': ['what each RunE does with the value; PersistentPreRun rewriting seed'],
     'technique': 'contract-based deductive verification: symbolic execution of the real init() SSA under the pflag contract, equalities discharged by z3/cvc5',
+}
+
+PROPS['C15'] = {
+    'level': 'proof', 'claimed': True,
+    'claim': 'unbounded proof that CopyNode/CopyEdge produce exact copies (names, ids, lengths, supports, p-values, index fields, node and branch comments element by element) in freshly allocated storage (comment slices and bitsets are not shared with the source) and write nothing else; further C15 functions are added as their contracts discharge',
+    'level_note': 'relative to the VC generator, go/ssa, the SMT solvers, the trusted model of fredericlemoine/bitset (Clone returns a fresh object with equal contents)',
+    'packages': ['./tree', './hashmap'],
+    'functions': ['(*tree.Tree).CopyNode', '(*tree.Tree).CopyEdge'],
+    'trusted_base': TB_COMMON,
+    'assumptions': A_COMMON,
+    'not_decided': ['clone structure as a whole (copyTreeRecur), graft/merge/insert transformers: not yet under contract'],
 }
